@@ -100,6 +100,39 @@ def close(a, b, rtol):
     return abs(a - b) <= rtol * max(1.0, abs(a), abs(b))
 
 
+def near_critical(ctx):
+    """corpus: a loop whose weight is just below 1, S -> a S | b with a = 1 - 2^-k (exactly representable), Z = b 2^k: finite, large,
+    and solved by `linear` / `newton` through star(a).  In the Log semiring star must stay accurate as log a -> 0 (the library
+    evaluates -log(-expm1(x)) there): the Log result is the logarithm of the Real result and float32 / float64 agree within their
+    precision, far from the 1e-2 of the test suite"""
+    from . import o_server
+    for k, dt, tol in ((8, 'float32', 2e-6), (12, 'float32', 2e-6), (16, 'float32', 2e-6), (20, 'float64', 1e-12), (30, 'float64', 1e-12), (40, 'float64', 1e-12)):
+        a, b = 1.0 - 2.0 ** -k, 0.5
+        shape = dict(nls=[1], terms=[[], []], nts=[[]], start=0,
+                     rules=[dict(lhs=0, nodes=[], ext=[], edges=[('t', 0, []), ('n', 0, [])]), dict(lhs=0, nodes=[], ext=[], edges=[('t', 1, [])])],
+                     weights={0: [a], 1: [b]}, vweights={0: [0.0], 1: [0.0]}, bweights={0: [1.0], 1: [1.0]})
+        want = math.log(b) + k * math.log(2.0)
+        for method in ('linear', 'newton'):
+            for name in ('log', 'real'):
+                req = dict(shape=json.loads(json.dumps(shape)), semiring=name, method=method, j_precompute=False, dtype=dt, grad=False)
+                case = dict(shape=shape, config=[name, method, False, dt], family='near-critical-loop')
+                ctx.evaluations += 1
+                ctx.count('near-critical-loop')
+                ctx.case(case, ('near-critical', k, dt, method, name), sample_every=6)
+                try:
+                    rep = o_server.evaluate(req)
+                except Exception as e:  # noqa
+                    ctx.fail(f'{name}/{method}/{dt}: raised {type(e).__name__} on a loop of weight 1 - 2^-{k}', case, repr(e), want, tags=['near-critical', name, method, dt, 'raises'])
+                    continue
+                v = rep['value'][0]
+                got = v if name == 'log' else (math.log(v) if v > 0 else -math.inf)
+                # relative to log Z for Log (the representation the semiring computes in), relative to Z for Real
+                err = abs(got - want) if name == 'real' else abs(got - want) / max(1.0, abs(want))
+                if rep.get('warned') or not err <= tol * (k if name == 'real' else 1) * 8:
+                    ctx.fail(f'{name}/{method}/{dt}: log Z = {got!r} for the loop of weight 1 - 2^-{k}; the closed form is {want!r}', case, got, want,
+                             tags=['near-critical', name, method, dt, 'value'])
+
+
 def run(ctx):
     from . import o_server
     modes = {'python': Server([]), 'python -O': Server(['-O'])}
@@ -108,6 +141,7 @@ def run(ctx):
     else:
         modes['python -OO'] = Server(['-OO'])
     try:
+        near_critical(ctx)
         n = 40 if ctx.quick else 250
         done = 0
         while done < n:
